@@ -1,0 +1,74 @@
+//go:build verif
+
+package validator
+
+// Contracts for property C06 (Validator). Comment-only file.
+
+/*@
+// ---- composition: a request passes only if every configured method accepts it ----
+// what each method decides is an uninterpreted function of (validator, request): JWT / OAuth2 / bcrypt / HMAC
+// are not modelled; the JWT key function, the Basic credential parsing and the data the signature covers are
+// verified separately below.
+ufunc jwtAccepts(v int, r int) bool
+ufunc oauthAccepts(v int, r int) bool
+ufunc basicAccepts(v int, r int) bool
+
+func (v *JWTValidator) Validate(req *httpprot.Request) (err error)
+  trusted
+  requires v != nil && req != nil
+  ensures decision: (err == nil) <==> jwtAccepts(ref(v), ref(req))
+  // the key function handed to jwt.Parse pins the algorithm: the secret is released only for a token whose
+  // header names the configured algorithm (no "alg: none" / algorithm-confusion downgrade)
+  closure[1] (token *jwt.Token) (key interface{}, err error)
+    requires v != nil && v.spec != nil && token != nil && token.Method != nil
+    ensures other-algorithms-get-no-key: jwtAlg(ifaceVal(token.Method)) != v.spec.Algorithm ==> err != nil && key == nil
+    ensures configured-algorithm-gets-the-secret: jwtAlg(ifaceVal(token.Method)) == v.spec.Algorithm ==> err == nil && key != nil
+  end
+
+func (v *OAuth2Validator) Validate(req *httpprot.Request) (err error)
+  trusted
+  pure
+  requires v != nil && req != nil
+  ensures (err == nil) <==> oauthAccepts(ref(v), ref(req))
+
+func (bav *BasicAuthValidator) Validate(req *httpprot.Request) (err error)
+  trusted
+  requires bav != nil && req != nil
+  modifies allof("map<string,[]string>#dom"), allof("map<string,[]string>#card"), allof("map<string,[]string>#val#arr"), allof("map<string,[]string>#val#len"), allof("map<string,[]string>#val#cap"), allof("elem<string>")
+  ensures (err == nil) <==> basicAccepts(ref(bav), ref(req))
+
+pred inReq(ctx *context.Context) := ptr(ctxInput(ref(ctx)), "*httpprot.Request")
+pred hdrOK(v *Validator, q *httpprot.Request) := v.headers == nil || httpheader.hdrRulesAccept(ref(v.headers.spec), ref(q.Request.Header))
+pred jwtOK(v *Validator, q *httpprot.Request) := v.jwt == nil || jwtAccepts(ref(v.jwt), ref(q))
+pred sigOK(v *Validator, q *httpprot.Request) := v.signer == nil || signer.sigAccepts(ref(v.signer), ref(q.Request))
+pred oauthOK(v *Validator, q *httpprot.Request) := v.oauth2 == nil || oauthAccepts(ref(v.oauth2), ref(q))
+pred basicOK(v *Validator, q *httpprot.Request) := v.basicAuth == nil || basicAccepts(ref(v.basicAuth), ref(q))
+pred outStatus() := ptr(outResp, "*httpprot.Response").Response.StatusCode
+
+func (v *Validator) Handle(ctx *context.Context) (result string)
+  flag allocates
+  flag frame=unchecked
+  requires v != nil && ctx != nil && ctxInput(ref(ctx)) != 0
+  requires as-it-arrives-through-the-http-server: inReq(ctx).stream == nil && signer.fwdLen(ref(inReq(ctx).Request)) == len(inReq(ctx).payload)
+  ensures accepted-only-if-every-configured-method-accepts: result == "" ==> hdrOK(v, inReq(ctx)) && jwtOK(v, inReq(ctx)) && sigOK(v, inReq(ctx)) && oauthOK(v, inReq(ctx)) && basicOK(v, inReq(ctx))
+  ensures accepted-if-every-configured-method-accepts: hdrOK(v, inReq(ctx)) && jwtOK(v, inReq(ctx)) && sigOK(v, inReq(ctx)) && oauthOK(v, inReq(ctx)) && basicOK(v, inReq(ctx)) ==> result == ""
+  ensures rejected-is-invalid: result == "" || result == "invalid"
+  ensures header-rules-answer-400: result != "" && !hdrOK(v, inReq(ctx)) ==> outStatus() == 400
+  ensures credentials-answer-401: result != "" && hdrOK(v, inReq(ctx)) ==> outStatus() == 401
+  closure[1] (status int, tagPrefix string, err error)
+    flag allocates
+    flag frame=unchecked
+    requires ctx != nil
+    ensures outResp != 0 && fresh(ptr(outResp, "*httpprot.Response")) && ptr(outResp, "*httpprot.Response").Response != nil && ptr(outResp, "*httpprot.Response").Response.StatusCode == status
+  end
+
+// ---- Basic credentials: user-id up to the first ':', password = everything after it (RFC 7617) ----
+func parseCredentials(creds string) (user string, pass string, err error)
+  ensures well-formed-credentials-are-split-at-the-first-colon: err == nil ==> creds == user ++ ":" ++ pass && !contains(user, ":")
+  ensures only-colon-less-credentials-are-rejected: err != nil <==> !contains(creds, ":")
+
+func parseBasicAuthorizationHeader(hdr *httpheader.HTTPHeader) (cred string, err error)
+  requires hdr != nil
+  ensures err == nil <==> hasPrefix(headerGet(ref(hdr.h), "Authorization"), "Basic ")
+  ensures err == nil ==> "Basic " ++ cred == headerGet(ref(hdr.h), "Authorization")
+@*/
